@@ -292,6 +292,12 @@ def run_check(prop, tier, seed, replay_path=None):
         ev["violations"] = len(violations)
         ev["wall_s"] = round(time.time() - t0, 2)
         write_evidence(prop, ev)
+        skipped = sorted(k for k, v in ctx.fact_status.items() if v.get("state") == "skipped")
+        if skipped:
+            # not an alarm (DESIGN §3.1): the shape of a function is no longer recognised, the theorems keep the
+            # baseline value of these facts and the tie rests on the correspondence alone — but say so loudly
+            out_lines.append("NOTE: property=%s translator skipped %d fact(s) (baseline values kept): %s"
+                             % (prop, len(skipped), ", ".join(skipped)))
         for l in out_lines:
             print(l)
         for path, suffix in violations:
